@@ -518,6 +518,10 @@ pub fn drive_cells(args: &Args) -> i32 {
                         let (res, rj, pl) = match rng.gen_range(0..4) {
                             0 => {
                                 let v: f64 = rng.gen_range(-1e9..1e9);
+                                // every other cached number has one of the marker values of the non-numeric results
+                                // (0 string, 1 boolean, 2 error, 3 blank) in its lowest byte: it is still a number,
+                                // because its two highest bytes are not FF FF
+                                let v = if rng.gen_bool(0.5) { f64::from_bits((v.to_bits() & !0xFF) | rng.gen_range(0..4u64)) } else { v };
                                 dbl_id += 1;
                                 (FRes::Num(v), json!({"t": "num", "n": dbl_id}), json!({"dbl": dbl_id, "bits": format!("{:x}", v.to_bits())}))
                             }
